@@ -30,12 +30,13 @@ a3cb032 C17 C17.own
 fdf1794 C14 C14.errflow
 288316b C17 C17.reset
 bb6a35c+c4d33bf C08 C08.reposition
-90d470c C05 C05.boundary
+ffad523+90d470c C05 C05.boundary
 a084387 C20 C20.result
 bb6a35c C08 C08.position
-c15ed5e C08 C08.reset
+9a87f9b+c15ed5e C08 C08.reset
 8c82aca C10 C10.direction
 1da8b63 C09 C09.bounds
+ffad523 C05 C05.boundary
 887f955 C08 C08.loopcond
 9a87f9b C08 C08.errexit
 d7c8347 C18 C18.fileid
